@@ -26,7 +26,7 @@ from ..cfg import explore, must_facts, canon_fact, holds
 from ..mutate import mutate, remove_stmts, replace_stmt, replace_expr, parse_stmt, parse_expr
 from ..model import AnalysisError
 from ..x_scope import own_nodes, strip_annotations
-from ..x_flow import expanded_facts, resolve_local, unique_def, concrete_paths
+from ..x_flow import expanded_facts, resolve_local, unique_def, concrete_paths, expand_locals
 
 TECHNIQUE = "syntactic timedelta lint with guard dominance on the CFG + exhaustive constant folding of the phrase arithmetic + idiom check of the digit-grouping loop"
 EXPLANATION = (
@@ -299,7 +299,8 @@ def rule_future(ck, fi):
     date = [p for p in fi.params() if p != "self"][0]
     fut_txts = {"%s > %s" % (date, now): True, "%s < %s" % (now, date): True, "%s <= %s" % (date, now): False, "%s >= %s" % (now, date): False,
                 "%s < %s" % (date, now): False, "%s > %s" % (now, date): False, "%s >= %s" % (date, now): True, "%s <= %s" % (now, date): True}
-    tests = [n for n in cfg.stmt_nodes(lambda n: n.kind == "test" and q.unparse(n.ast) in fut_txts)]
+    ftxt = lambda n: q.unparse(expand_locals(fi, n.ast, keep={date, now}))
+    tests = [n for n in cfg.stmt_nodes(lambda n: n.kind == "test" and ftxt(n) in fut_txts)]
     ck.floor("C46.future-full-format", len(tests), 1, "future tests (`date > now`)")
     is_full = lambda n: n.kind == "stmt" and isinstance(n.ast, ast.Assign) and "full_format" in q.assigned_paths(n.ast) and q.is_const(n.ast.value, True)
     is_clamp = lambda n: n.kind == "stmt" and isinstance(n.ast, ast.Assign) and date in q.assigned_paths(n.ast) and q.dotted(n.ast.value) == now
@@ -314,8 +315,8 @@ def rule_future(ck, fi):
         return v
 
     def edge(n, kind, v):
-        if n.kind == "test" and kind in ("true", "false") and q.unparse(n.ast) in fut_txts:
-            return "future" if fut_txts[q.unparse(n.ast)] == (kind == "true") else "past"
+        if n.kind == "test" and kind in ("true", "false") and ftxt(n) in fut_txts:
+            return "future" if fut_txts[ftxt(n)] == (kind == "true") else "past"
         return v
 
     seen = explore(cfg, "unknown", tr, lambda t: False, edge_transfer=edge, follow_exc=False)
